@@ -254,6 +254,22 @@ func (i *interpreter) runPath(fn *ssa.Function, prefix []decision) (res *PathRes
 			switch r := r.(type) {
 			case *engineAbort:
 				res.End, res.Msg = r.kind, r.msg
+				if r.kind == "goroutine-panic" {
+					func() {
+						defer func() {
+							if r2 := recover(); r2 != nil {
+								if ea, ok := r2.(*engineAbort); ok {
+									res.End, res.Msg = ea.kind, ea.msg+" ("+r.msg+")"
+									return
+								}
+								panic(r2)
+							}
+						}()
+						i.flushAsserts()
+						i.doAssert(false, "no-panic", true, r.msg)
+						res.End = "panic-known"
+					}()
+				}
 			case targetPanic:
 				// unrecovered panic of the code under test
 				msg := "unrecovered panic: " + toString(r.v)
